@@ -6,7 +6,7 @@ import reccommon as R
 from engine import Op, set_mode
 
 PROP = "C13"
-LEAN_MODULES = ["IsoDT.Props.C13"]
+LEAN_MODULES = ["IsoDT.Props.C13", "IsoDT.Props.C13b"]
 RULE = ("recurrences as in C12 x probe points before, on, between and after members, members re-expressed in "
         "another zone/representation, the last member, one second either side; non-trivial when the probe is "
         "within the span of the series; distinct by (op, arguments)")
